@@ -142,6 +142,16 @@ def run(tier, seed):
             chk.broken.append({'kind': 'harness', 'log': o[:600], 'case': c})
             continue
         chk.fail(None, {'clause': 'read chain then first write', 'result': o[:800], **c}, {'kind': 'chain', 'case': c})
+    # the same reads, and `.value`, on free-standing segments that hold nothing (MSH among them)
+    sjobs = sorted({(c['version'], c['segment'], (c['field'], c['component'], c['sub'])) for c in cases})
+    for v in vs:
+        sjobs += [(v, 'MSH', ('MSH_%d' % i, None, None)) for i in (1, 2, 3, 9)] + [(v, 'MSH', ('MSH_9', 'MSG_1', None)), (v, 'BHS', ('BHS_1', None, None)), (v, 'BHS', ('BHS_2', None, None))]
+    for j, o in zip(sjobs, vlib.pmap(chains.standalone_job, sjobs)):
+        chk.evals += 1
+        if not o.startswith('ok '):
+            chk.fail(None, {'clause': 'reads on a free-standing segment write nothing', 'result': o[:800], 'version': j[0], 'segment': j[1], 'chain': [x for x in j[2] if x]},
+                     {'kind': 'standalone', 'case': [j[0], j[1], list(j[2])]})
+    chk.dist['standalone_read_chains'] = len(sjobs)
     chk.dist['chains'] = {'cases': len(cases), 'versions': vs, 'by_depth': depth}
     chk.exhaustive = False
     chk.rule = ('read chains message -> [groups] -> segment -> field -> [component -> [subcomponent]] (by name or positional path) sampled from the message structures '
@@ -159,6 +169,10 @@ def replay(path):
     d = json.load(open(path))
     print(json.dumps(d['what'], indent=1)[:3000])
     r = d['replay']
+    if r.get('kind') == 'standalone':
+        o = chains.standalone_job((r['case'][0], r['case'][1], tuple(r['case'][2])))
+        print('replayed:', o)
+        return 0 if o.startswith('ok') else 1
     if r.get('kind') == 'chain':
         o = chains.chain_job(r['case'])
         print('replayed:', o)
